@@ -590,6 +590,7 @@ func (obj *Package) Unexport(name string) {
 func (obj *Package) Undefine(name string) {
 	name = strings.ToLower(name)
 	obj.mu.Lock()
+	var home *Package
 	if fi := obj.funcs[name]; fi != nil {
 		delete(obj.funcs, name)
 		if fi.Pkg == obj {
@@ -608,9 +609,15 @@ func (obj *Package) Undefine(name string) {
 				vv.Export = true
 				obj.vars[name] = vv
 			}
+		} else if fi.Pkg != nil && !fi.Pkg.Locked {
+			// An inherited function is undefined where it lives.
+			home = fi.Pkg
 		}
 	}
 	obj.mu.Unlock()
+	if home != nil {
+		home.Undefine(name)
+	}
 	pname := fmt.Sprintf("%s:%s", obj.Name, name)
 	for _, h := range unsetHooks {
 		h.fun(obj, name)
